@@ -332,7 +332,12 @@ fn const_bytes<'tcx>(tcx: TyCtxt<'tcx>, owner: DefId, c: &MirConst<'tcx>) -> Opt
 	// `&&str` (e.g. the promoted right-hand side of `k == "version"`): follow one more pointer
 	let is_ref_ref_str = match ty.kind() {
 		ty::Ref(_, inner, _) => match inner.kind() {
-			ty::Ref(_, i2, _) => matches!(i2.kind(), ty::Str),
+			ty::Ref(_, i2, _) => match i2.kind() {
+				ty::Str => true,
+				// `&&[u8]`: the promoted right-hand side of `slice == MARKER` with `const MARKER: &[u8]`
+				ty::Slice(t) => *t == tcx.types.u8,
+				_ => false,
+			},
 			_ => false,
 		},
 		_ => false,
